@@ -216,7 +216,8 @@ module Wrap = struct
                           let x = if w1.w_base.bad then "mismatch"
                             else if w1.w_base.script <> [] then Printf.sprintf "extra%d" (List.length w1.w_base.script)
                             else "ok" in
-                          let rtxt = (match bclass mt cargs with CConfig -> "cfg" | _ -> show_ans r.r_ans) in
+                          let noobj = (match r.r_ans.a_err with Some (EStuck n) -> int_of_n n = 1 | _ -> false) in
+                          let rtxt = (match bclass mt cargs with CConfig when not noobj -> "cfg" | _ -> show_ans r.r_ans) in
                           (* a composite that returned nil although a primitive inside it was failed *)
                           let failed = List.filter_map (fun (f, b) -> if b then Some (fn_name f) else None) r.r_cons in
                           let composite = List.mem m ["V.Create"; "V.WriteFile"; "V.ReadFile"; "V.ReadDir"; "V.Glob"; "V.MkdirTemp"] in
